@@ -590,6 +590,25 @@ def execute_http(frontend, prefix, template, toks, attrs, audit_paths, colls=(CA
 
     rawtags, generation = {}, {}
 
+    def commit_counts():
+        """collection path -> number of commits reachable from HEAD (tree repositories on disk)"""
+        import os
+        import dulwich.repo
+        out = {}
+        for cp in known_colls:
+            d = root + "/data" + cp
+            if os.path.isdir(os.path.join(d, ".git")):
+                try:
+                    repo = dulwich.repo.Repo(d)
+                    try:
+                        out[cp] = sum(1 for _ in repo.get_walker())
+                    except KeyError:
+                        out[cp] = 0
+                    repo.close()
+                except Exception:
+                    pass
+        return out
+
     def audit():
         if check_views:
             for cp, kind in ((CAL, "calendar"), (BOOK, "addressbook")):
@@ -635,6 +654,9 @@ def execute_http(frontend, prefix, template, toks, attrs, audit_paths, colls=(CA
         audit()
         for op in template:
             kind = op[0]
+            if git_checks:
+                before = commit_counts()
+                nlines = len(lines)
             if kind == "PUT":
                 _, path, ct, tok, im_sel, inm_sel = op
                 pre = []
@@ -711,6 +733,24 @@ def execute_http(frontend, prefix, template, toks, attrs, audit_paths, colls=(CA
                 impl.srv.restart()
                 lines.append("restart | restart")
             audit()
+            if git_checks:
+                after = commit_counts()
+                while nlines < len(lines) and lines[nlines].split(" ", 1)[0] != kind:
+                    nlines += 1          # skip the attr lines emitted before the operation
+                obs = lines[nlines].split(" | ", 1)[1] if len(lines) > nlines and " | " in lines[nlines] else ""
+                acked = kind in ("PUT", "POST", "DELETE") and obs.split(" ")[0] in ("created", "updated", "createdat", "deleted")
+                for cp, n0 in before.items():
+                    n1 = after.get(cp)
+                    if n1 is None:
+                        continue
+                    import posixpath
+                    target = posixpath.normpath(op[1]) if len(op) > 1 and isinstance(op[1], str) and op[1].startswith("/") else ""
+                    mine = acked and (target == cp or target.startswith(cp + "/"))
+                    if not mine and n1 != n0:
+                        impl.notes.append("C09:commit-without-an-acknowledged-change %s: %d -> %d commits after `%s` (%s)" % (
+                            cp, n0, n1, lines[nlines][:120] if len(lines) > nlines else kind, obs[:40]))
+                    elif mine and n1 - n0 not in (0, 1):
+                        impl.notes.append("C09:one-acknowledged-change-made-%d-commits %s after `%s`" % (n1 - n0, cp, lines[nlines][:120]))
         if git_checks:
             from storedrv import git_cli_checks
             import os
@@ -750,6 +790,9 @@ def gen_http_template(rng, toks, length, profile="mixed"):
     bad = [toks.tok(b) for b in rng.sample(INVALID_ICAL, 2)]
     ops = []
     paths = [CAL + "/" + n for n in NAMES[CAL]] + [BOOK + "/" + n for n in NAMES[BOOK]]
+    if profile in ("git", "mixed"):
+        ops.append(("MKCOL", "/user/extra"))
+        paths += ["/user/extra/e1.ics", "/user/extra/e2.ics"]
     if profile == "tags":
         # a collection made by plain MKCOL (no type recorded) gets members too
         ops.append(("MKCOL", "/user/extra"))
@@ -763,7 +806,7 @@ def gen_http_template(rng, toks, length, profile="mixed"):
         path = rng.choice(paths)
         if profile in ("mixed", "git") and rng.random() < (0.25 if profile == "git" else 0.06):
             path = rng.choice(odd)
-        cal = path.startswith(CAL) or path in odd
+        cal = path.startswith(CAL) or path in odd or path.startswith("/user/extra/")
         if profile == "cond":
             sel = lambda: rng.choice(COND_SELS)
         else:
